@@ -134,13 +134,12 @@ Theorem C19_aggregation_once : forall reqs disj out disj',
 Proof. exact aggregation_once. Qed.
 Print Assumptions C19_aggregation_once.
 
-(* "identical" is false of the faithful model: `bidir` is not compared (finding F14; the witness is replayed on gnpy
-   by corpus/C19/f14_bidir_lost_in_aggregation.json) *)
-Theorem C19_aggregation_ignores_bidir_refuted :
-  exists reqs out d, fresh reqs /\ requests_aggregation reqs [] = (out, d) /\
-    exists r t, In r out /\ In t (a_members r) /\ bidir_of reqs t = true /\ a_bidir r = false.
-Proof. exact agg_bidir_refuted. Qed.
-Print Assumptions C19_aggregation_ignores_bidir_refuted.
+(* `bidir` is one of the compared fields: a reported request has the direction flag of every member *)
+Theorem C19_aggregation_bidir : forall reqs disj out disj',
+  fresh reqs -> Forall key_has_bidir reqs -> requests_aggregation reqs disj = (out, disj') ->
+  forall r t, In r out -> In t (a_members r) -> bidir_of reqs t = a_bidir r.
+Proof. exact aggregation_bidir. Qed.
+Print Assumptions C19_aggregation_bidir.
 
 (* ---------------------------------------------------------------- CSV export *)
 Theorem C19_csv_served : forall o resp eqp margin pdbm row,
@@ -255,16 +254,17 @@ Example ex_csv :
 Proof. split; do 2 eexists; repeat split; vm_compute; reflexivity. Qed.
 
 (* aggregation: requests 0 and 2 are identical (fixed mode) and are joined into "2 | 0"; request 1 has no mode *)
-Definition ex_k (mode : fld) : list fld := [FStr "trx A"; FStr "trx B"; FStr "Voyager"; mode; FNum (50 # 1)].
+Definition ex_k (mode : fld) : list fld := [FStr "trx A"; FStr "trx B"; FBool false; FStr "Voyager"; mode; FNum (50 # 1)].
 Definition ex_reqs : list areq :=
   [mkA 0 "0" [0%nat] (ex_k (FStr "mode 1")) true (100 # 1) [Some 0] [Some 4] false;
    mkA 1 "1" [1%nat] (ex_k FNone) false (200 # 1) [None] [None] false;
    mkA 2 "2" [2%nat] (ex_k (FStr "mode 1")) true (300 # 1) [Some 16] [Some 4] false].
-Example ex_aggregation : fresh ex_reqs /\
+Example ex_aggregation : fresh ex_reqs /\ Forall key_has_bidir ex_reqs /\
   exists d, requests_aggregation ex_reqs [["1"; "9"]%string] =
     ([mkA 1 "1" [1%nat] (ex_k FNone) false (200 # 1) [None] [None] false;
       mkA 2 "2 | 0" [2%nat; 0%nat] (ex_k (FStr "mode 1")) true ((300 # 1) + (100 # 1)) [Some 16; Some 0] [Some 4; Some 4] false], d).
 Proof.
   split; [split; [repeat constructor; cbn; intuition discriminate|repeat constructor]|].
+  split; [repeat constructor|].
   eexists. vm_compute. reflexivity.
 Qed.
